@@ -90,3 +90,8 @@ PROPS['C15'] = dict(
     unit_modules=[], driver_modules=['drivers.c15'], level='other',
     level_text='tbd', level_note='tbd', assumptions=COMMON_ASSUMPTIONS,
 )
+
+PROPS['C16'] = dict(
+    unit_modules=[], driver_modules=['drivers.c16'], level='other',
+    level_text='tbd', level_note='tbd', assumptions=COMMON_ASSUMPTIONS,
+)
